@@ -71,8 +71,8 @@ fn codegen_meta(property: &'static str, arch: &str) -> CheckMeta {
     }
 }
 
-/// C09 / C10 worker. Shards 0..2 run the explicit-state search for one architecture each; the
-/// others run the program executions (C09: all families under the heap monitor; C10: the loop
+/// C09 / C10 worker. The explicit-state searches (configuration x architecture) are dealt round
+/// robin to the workers; every worker also takes its share of the program executions (C09: all families under the heap monitor; C10: the loop
 /// families at n, 4n, 16n).
 fn heap_worker(ctx: &WorkerCtx, footprint: bool) -> Report {
     use crate::arch::arch_info;
@@ -95,9 +95,9 @@ fn heap_worker(ctx: &WorkerCtx, footprint: bool) -> Report {
             tasks.push((a, (*k, *live, *rich, pad)));
         }
     }
-    let ntasks = tasks.len() as u64;
-    let exec_shard = if n > ntasks { if ctx.shard >= ntasks { Some(ctx.shard - ntasks) } else { None } } else { Some(ctx.shard) };
-    let exec_n = if n > ntasks { n - ntasks } else { n };
+    // every worker takes its share of the searches (round robin) and of the program executions
+    let exec_shard = Some(ctx.shard);
+    let exec_n = n;
     for (ti, (arch, (k, live, rich, pad))) in tasks.into_iter().enumerate() {
         if ti as u64 % n != ctx.shard {
             continue;
@@ -241,25 +241,25 @@ pub fn run_check(id: &str, tier: Tier) -> i32 {
                 "C03" => CheckMeta {
                     property: "C03",
                     level: "model_checking",
-                    rule: format!("every translation output of {fams}, plus FUN-EFFECT with prints/goto/exit in argument positions) is run on R-CORE before and after the real Prog::focus(); full print sequence and result must agree; after focusing, binders along every path are checked to be non-zero, pairwise distinct and <= max_id."),
+                    rule: format!("every translation output of {fams}, plus FUN-EFFECT with prints/goto/exit in argument positions) is run on R-CORE before and after the real Prog::focus(); full print sequence and result must agree; after focusing, binders along every path are checked to be non-zero, pairwise distinct and <= max_id.{}", format!(" G-CORE: additionally every hand-built Core program of the exhaustive enumeration `generate/corefam.rs` (statements of up to N nodes over cut at i64 / a pair type / a codata type, print, zero test, exit, call of a helper that rebinds its own parameters, mu, mutilde, case, cocase, constructor and destructor with arbitrary non-value arguments; binders drawn from two variable and two covariable names, so every kind of shadowing, also at a different type, occurs; two alphabets, N = {}), each confirmed well-typed by TC-CORE first.", "12/14 quick, 14/16 thorough")),
                     assumptions: vec!["R-CORE's dynamic focusing (left-to-right, once for integers/data, by name for codata, consumer-first for codata cuts) is the reading of the property's evaluation order".into()],
                 },
                 "C04" => CheckMeta {
                     property: "C04",
                     level: "model_checking",
-                    rule: format!("every focused program of {fams}, FUN-EFFECT) is shrunk by the real shrink_prog; the AxCut machine (by name) on the output must agree with R-CORE on the focused input (output, result, termination); lifted definitions must have exactly the free variables of their body as parameters; the output must be well-scoped with unique binders per path."),
+                    rule: format!("every focused program of {fams}, FUN-EFFECT) is shrunk by the real shrink_prog; the AxCut machine (by name) on the output must agree with R-CORE on the focused input (output, result, termination); lifted definitions must have exactly the free variables of their body as parameters; the output must be well-scoped with unique binders per path.{}", format!(" G-CORE: additionally every hand-built Core program of the exhaustive enumeration `generate/corefam.rs` (statements of up to N nodes over cut at i64 / a pair type / a codata type, print, zero test, exit, call of a helper that rebinds its own parameters, mu, mutilde, case, cocase, constructor and destructor with arbitrary non-value arguments; binders drawn from two variable and two covariable names, so every kind of shadowing, also at a different type, occurs; two alphabets, N = {}), each confirmed well-typed by TC-CORE first.", "11/13 quick, 13/15 thorough")),
                     assumptions: vec!["focused Core is embedded into Core and run on the same R-CORE machine".into()],
                 },
                 "C05" => CheckMeta {
                     property: "C05",
                     level: "model_checking",
-                    rule: format!("(a) the complete space of non-linear AxCut statements over contexts of <= 3 (quick) / <= 4 (thorough) variables: every kind assignment x statement kind (literal, print, op, let, ifc, switch, create with every captured subset, call with every argument pair incl. repetition) x every subset of variables used afterwards; (b) every shrunk program of {fams}). Each is linearized by the real linearizer; TC-AX checks the ordered-linear judgment of DESIGN Appendix A on every statement of every path; the positional AxCut machine on the linearized program must agree with the by-name machine on the original."),
+                    rule: format!("(a) the complete space of non-linear AxCut statements over contexts of <= 3 (quick) / <= 4 (thorough) variables: every kind assignment x statement kind (literal, print, op, let, ifc, switch, create with every captured subset, call with every argument pair incl. repetition) x every subset of variables used afterwards; (b) every shrunk program of {fams}). Each is linearized by the real linearizer; TC-AX checks the ordered-linear judgment of DESIGN Appendix A on every statement of every path; the positional AxCut machine on the linearized program must agree with the by-name machine on the original. (c) the shrunk programs of the G-CORE enumeration (hand-built Core programs with every kind of shadowing, sizes 11/13 quick, 13/15 thorough; see C03)."),
                     assumptions: vec!["Appendix A judgment read off the backends' expectations".into()],
                 },
                 _ => CheckMeta {
                     property: "C12",
                     level: "exploration",
-                    rule: format!("every program of {fams}, FUN-EFFECT) is accepted by the checker and taken through translation, focusing, shrinking, linearization and the three code generators under catch_unwind (only the documented capacity panics are tolerated); TC-CORE checks the translation output and the focused program, TC-AX the shrunk and the linearized program, with exactly the judgments listed in the property. Non-trivial = reached all stages; distinct = distinct source texts."),
+                    rule: format!("every program of {fams}, FUN-EFFECT) is accepted by the checker and taken through translation, focusing, shrinking, linearization and the three code generators under catch_unwind (only the documented capacity panics are tolerated); TC-CORE checks the translation output and the focused program, TC-AX the shrunk and the linearized program, with exactly the judgments listed in the property. Non-trivial = reached all stages; distinct = distinct source texts.{}", format!(" G-CORE: additionally every hand-built Core program of the exhaustive enumeration `generate/corefam.rs` (statements of up to N nodes over cut at i64 / a pair type / a codata type, print, zero test, exit, call of a helper that rebinds its own parameters, mu, mutilde, case, cocase, constructor and destructor with arbitrary non-value arguments; binders drawn from two variable and two covariable names, so every kind of shadowing, also at a different type, occurs; two alphabets, N = {}), each confirmed well-typed by TC-CORE first.", "11/13 quick, 13/15 thorough")),
                     assumptions: vec!["TC-CORE/TC-AX are independent of the repository's own type information except for the annotations carried by the programs".into()],
                 },
             };
@@ -305,7 +305,7 @@ pub fn run_check(id: &str, tier: Tier) -> i32 {
             let meta = CheckMeta {
                 property: "C16",
                 level: "exploration",
-                rule: "G-TEXT: every term form (literals incl. negative, variable, 5 operators, 6 comparisons in two-operand / zero-right / zero-left form, let, call, constructor, case with 0..3 clauses, destructor with/without type arguments and arguments, cocase with 0..2 clauses, label, goto, exit, print, println, parentheses) nested in every operand slot of every term form (depth 2 quick, depth 3 thorough), comparison spellings with -0 / missing spaces / parenthesised zero, destructor and case chains, all declaration forms, and the repository's own .sc files. Only texts the real parser accepts are used; the tree is obtained by parsing. For every (width, indent) in 1..60+{70..200} x {0,1,2,4,8} (quick) / 1..200 x 0..8 (thorough) the program is printed by the repository's printer; every distinct rendering is re-parsed: the tree must be equal (spans ignored) and printing again must give the same text. A slice goes through the real `scc fmt --inplace`. Distinct = distinct accepted source texts.".into(),
+                rule: "G-TEXT: every term form (literals incl. negative, variable, 5 operators, 6 comparisons in two-operand / zero-right / zero-left form, let, call, constructor, case with 0..3 clauses, destructor with/without type arguments and arguments, cocase with 0..2 clauses, label, goto, exit, print, println, parentheses) nested in every operand slot of every term form (depth 2 quick, depth 3 thorough), comparison spellings with -0 / missing spaces / parenthesised zero, destructor and case chains, all declaration forms, and the repository's own .sc files. Only texts the real parser accepts are used; the tree is obtained by parsing. For every (width, indent) in 1..60+{70..200} x {0,1,2,4,8} (quick) / 1..200 x 0..8 (thorough; the depth-3 texts use the quick set) the program is printed by the repository's printer; every distinct rendering is re-parsed: the tree must be equal (spans ignored) and printing again must give the same text. A slice goes through the real `scc fmt --inplace`. Distinct = distinct accepted source texts.".into(),
                 assumptions: vec!["tree equality is the repository's derived PartialEq with source positions ignored".into()],
             };
             finish(&meta, tier, started, rep, Map::new())
